@@ -365,12 +365,12 @@ type obsA struct {
 	Code       string   `json:"code,omitempty"`
 	Clusters   []string `json:"cds,omitempty"`
 	cdsDigest  string
-	ServedAs   string   `json:"served_as,omitempty"` // which canonical proxy's CDS this equals
-	Registered bool     `json:"registered"`          // the connection shows up in DiscoveryServer.AllClients
-	Verified   string   `json:"verified_identity,omitempty"`
-	ConfigNS   string   `json:"proxy_config_namespace"`
-	SDS        []resB   `json:"sds,omitempty"`
-	SDSAnswer  bool     `json:"sds_answered"`
+	ServedAs   string `json:"served_as,omitempty"` // which canonical proxy's CDS this equals
+	Registered bool   `json:"registered"`          // the connection shows up in DiscoveryServer.AllClients
+	Verified   string `json:"verified_identity,omitempty"`
+	ConfigNS   string `json:"proxy_config_namespace"`
+	SDS        []resB `json:"sds,omitempty"`
+	SDSAnswer  bool   `json:"sds_answered"`
 }
 
 type serverA struct {
@@ -654,7 +654,8 @@ func judgeA(c claimA, a authA, o *obsA) []findingB {
 	switch {
 	case len(proven) == 0:
 		key = "a:served-without-any-parseable-identity|auth=" + a.Label
-	case !provenNS[o.ServedAs] || (claimNS != "" && !provenNS[claimNS]):
+	case !provenNS[o.ServedAs] || (claimNS != "" && !provenNS[claimNS]) || (o.Verified != "" && labelNS(strings.Split(o.Verified, "/")[0]) != o.ServedAs):
+		// the namespace served is not a proven one, or not the one of the identity the server recorded
 		key = fmt.Sprintf("a:served-as-namespace-not-proven|claimed-namespace=%s(%s)|served-as=%s", nsClass(claimNS), claimSource(c), servedClass(o.ServedAs))
 	case !nsAndSA:
 		key = fmt.Sprintf("a:served-with-service-account-not-proven|claimed-sa=%s|identities=%s", saClass(claimSA), authShape(a))
